@@ -129,6 +129,64 @@ let () =
          (model, spec))
     | _ -> failwith "C12.norm input");
 
+  (* C12.days  input "<V> | <journal>"  observed "<date>:C=p;C=-;... / <date>:..." | ERR
+     model: the builder's days through Model/Pipeline.compute_prices_proc (what journal.ComputePrices does);
+     spec (C12_day): the prices of day k are valid prices of the declarations dated up to day k *)
+  register "C12.days" (fun inp obs ->
+    let (c, j) = split_input inp in
+    let v = str_of_string (String.trim c) in
+    let sds = decode_journal j in
+    match K.parse_directives sds with
+    | K.MOk dl ->
+      let days = (K.builder_of dl).K.b_days in
+      let names = sort_uniq_names (String.trim c :: List.concat_map (function
+        | K.DPrice (_, a, _, b) -> [string_of_str a; string_of_str b]
+        | K.DTxn t -> List.map (fun p -> string_of_str p.K.p_com) t.K.t_postings
+        | _ -> []) dl) in
+      let block (d : K.day) =
+        Drv_c11.fmt_date d.K.d_date ^ ":" ^ String.concat ";" (List.map (fun n ->
+          match K.np_price_opt d.K.d_normalized (str_of_string n) with
+          | Some p -> n ^ "=" ^ ds p
+          | None -> n ^ "=-") names) in
+      let model =
+        (match K.process_days (K.compute_prices_proc v) { K.cp_prices = []; K.cp_previous = None } days with
+         | K.ROk (_, days') -> String.concat " / " (List.map block days')
+         | K.RErr _ -> "ERR"
+         | K.RPanic _ -> "PANIC") in
+      let spec =
+        if obs = "ERR" then (if model = "ERR" then "ok" else "FAIL:ComputePrices failed")
+        else if String.length obs >= 5 && String.sub obs 0 5 = "PANIC" then "FAIL:panic"
+        else
+          (try
+             let bad = ref [] in
+             List.iter (fun blk ->
+               match String.index_opt blk ':' with
+               | None -> if blk <> "" then failwith blk
+               | Some i ->
+                 let date = Drv_c11.parse_date (String.sub blk 0 i) in
+                 let rest = String.sub blk (i + 1) (String.length blk - i - 1) in
+                 (* the declarations dated up to this day, in the builder's order *)
+                 let decls = List.concat_map (fun (d : K.day) ->
+                   if K.Z.leb d.K.d_date date then d.K.d_prices else []) days in
+                 (match build decls with
+                  | Error _ -> ()
+                  | Ok ps ->
+                    List.iter (fun e ->
+                      match String.index_opt e '=' with
+                      | Some k ->
+                        let n = String.sub e 0 k and pv = String.sub e (k + 1) (String.length e - k - 1) in
+                        let cs = str_of_string n in
+                        (* before the first declaration there is no price table at all (also not for V itself) *)
+                        let want = if decls = [] then (pv = "-")
+                          else K.valid_price_b ps v cs (if pv = "-" then None else Some (dec_of pv)) in
+                        if not want then bad := (Drv_c11.fmt_date date ^ " " ^ n ^ "=" ^ pv) :: !bad
+                      | None -> failwith e) (split_on ';' rest))) (split_str " / " obs);
+             if !bad = [] then "ok"
+             else "FAIL:day prices are not valid prices of the declarations up to that day: " ^ String.concat ", " (List.rev !bad)
+           with _ -> "FAIL:unparsable") in
+      (model, spec)
+    | _ -> ((if obs = "ERR" then "ERR" else "REJECTED"), "ok"));
+
   register "C12.dec" (fun inp _obs ->
     match String.split_on_char ' ' inp with
     | [a; b] ->
